@@ -277,7 +277,9 @@ impl EqualityConstraint {
     /// // Normalizes to: -2x + y - 3z = 4
     /// ```
     pub fn new(coefficients: Vec<f64>, rhs: f64) -> EqualityConstraint {
-        match float_lt(rhs, 0.0) {
+        //exact on purpose: a tolerant test would leave a tiny negative right-hand
+        //side in place, and the standard form promises non-negative ones
+        match rhs < 0.0 {
             true => EqualityConstraint {
                 coefficients: coefficients.iter().map(|c| c * -1.0).collect(),
                 rhs: -rhs,
